@@ -23,6 +23,10 @@ CHECKS = {
          "CLI.tla: the program as a machine (argument parsing, source, GM2CalcConfig entries in file order, reader/model outcome per input class, writer, catch, exit) is model-checked for all argument vectors, configuration-entry sequences, all 480 option vectors and six input classes: termination under fairness, exit status in {0,1}, every failure diagnosed, clean stdout, and membership in the declarative predicate Allowed; wrong variants demonstrate non-vacuity.  TLC-enumerated environments are concretised (real argv, real input files per input class, real GM2CalcConfig text, stdin) and run on the ASan+UBSan(+float-cast-overflow)+leak build; Trace_C14.tla replays CLI.tla's own actions for each environment and requires the observed exit status / stdout items to equal the machine's; mutated shipped inputs, directed extreme values and random bytes are validated against Allowed",
          "memory safety and UB are observed through the sanitizer build, not derived from the model; 'any byte sequence' is sampled; trusted: stdout abstraction (harness/lib/cli.py), TLC",
          "TLC model checking of CLI.tla + trace validation replaying CLI.tla actions (Trace_C14.tla) on executions of the sanitizer build", "DESIGN 5/C14"),
+ "C15": ("model_checking",
+         "CLI.tla (CLI_full.cfg) checks the slot table - which symbolic quantity is printed in which slot for each of the 480 option vectors and 3 input types, default format per input type, uncertainty placement - as invariants; Trace_C15.tla validates executions of gm2calc.x against API values recorded from the library for the same input: printed decimals equal the API value to the printed precision (minimal, SLHA blocks, every number of both detailed reports incl. products and sums), parts add up to totals, every percentage is 100 x component / reference, the same text in formats 0/2/3/4, uncertainty exactly where documented, SLHA echo token-for-token",
+         "quick tier: covering subset of 60 option vectors per input (all 480 in the thorough tier), shipped inputs and test points; trusted: decimal/stdout parsing in the harness, TLC",
+         "TLC model checking of CLI.tla slot invariants + TLA+ trace validation (Trace_C15.tla) of program output against recorded API values", "DESIGN 5/C15"),
  "C18": ("exploration",
          "random MSSM/THDM models from TLC-enumerated classes; every recorded call of the uncertainty API is validated by TLC against the documented definitions (floor, sums, overload agreement) in exact arithmetic",
          "sampling inside classes is not exhaustive; trusted: TLC, lossless double encoder, class generators",
